@@ -4,7 +4,7 @@
    (integer root bisection, rational root and rational power),
    Fmt/Flag.v (the exact flag through Value add/sub/mul/div/neg). *)
 From FendV Require Import Base.Prelude Fmt.Rat Fmt.Format Fmt.Lex Fmt.IntFmtProofs Fmt.LexProofs
-  Fmt.ExpansionProofs Fmt.RoundTripProofs Fmt.TruncProofs Fmt.Root Fmt.RootProofs Fmt.Flag Fmt.FlagProofs Fmt.RealFlag Fmt.RealFlagProofs.
+  Fmt.ExpansionProofs Fmt.RoundTripProofs Fmt.TruncProofs Fmt.SfProofs Fmt.Root Fmt.RootProofs Fmt.Flag Fmt.FlagProofs Fmt.RealFlag Fmt.RealFlagProofs.
 From Coq Require Import QArith.
 Open Scope N_scope.
 
@@ -54,11 +54,36 @@ Theorem C03_sf_int_truncation : forall base sep neg sf n s ex, base_prefix_ok ba
 Proof. exact sf_int_truncation_lemma. Qed.
 Print Assumptions C03_sf_int_truncation.
 
-(* Full statement for n sf of a NON-integer (not proved as a position
-   theorem): the text is |x| truncated to n significant digits.  Proved
-   part: C03_marker covers it -- the text is flagged exact only if it
-   denotes x -- and the digit position is covered by the correspondence run
-   against the reference truncation (gen/fmtlib.py render) for n = 0..60. *)
+(* n significant figures of a NON-integer rational in lowest terms: the text
+   is the value truncated at the n-th significant digit, flagged exact exactly
+   when nothing was dropped.  Three regimes, as in the code:
+   - integer part of L digits, L <= n: truncation at n - L decimal places;
+   - L > n: the integer part with its last L - n digits zeroed, never exact;
+   - no integer part: z leading zeros after the point are not counted
+     (b^-(z+1) <= |x| < b^-z) and max(n,1) digits follow them. *)
+Theorem C03_sf_truncation : forall fuel sf base sep x s ex,
+  base_prefix_ok base = true -> wfr x = true -> reduced x = true -> rden x <> 1 ->
+  bigrat_format fuel (SSf sf) base sep x = Ok (s, ex) ->
+  let b := base_val base in
+  let ip := rnum x / rden x in
+  exists v, read_rendering sep base s = Some v /\
+    ((ip <> 0 /\ exists ds, canon_ds b ip ds /\
+        ((N.of_nat (length ds) <= sf /\
+          let Bn := b ^ (sf - N.of_nat (length ds)) in
+          let T := rnum x * Bn / rden x in
+          (v == signedQ (Rat.rneg x) (qN T / qN Bn))%Q /\ (ex = true <-> T * rden x = rnum x * Bn))
+         \/
+         (sf < N.of_nat (length ds) /\
+          let k := N.of_nat (length ds) - sf in
+          (v == signedQ (Rat.rneg x) (qN (ip / b ^ k * b ^ k)))%Q /\ ex = false)))
+     \/
+     (ip = 0 /\ exists z : nat,
+        rnum x * b ^ N.of_nat z < rden x /\ rden x <= rnum x * b ^ N.of_nat (z + 1) /\
+        let Bn := b ^ (N.of_nat z + N.max sf 1) in
+        let T := rnum x * Bn / rden x in
+        (v == signedQ (Rat.rneg x) (qN T / qN Bn))%Q /\ (ex = true <-> T * rden x = rnum x * Bn))).
+Proof. exact sf_truncation_lemma. Qed.
+Print Assumptions C03_sf_truncation.
 
 (* integer n-th root by bisection: floor root, exact flag iff perfect power;
    total for 0 < n < 2^64; the only panic is the division by zero for n = 0 *)
@@ -196,7 +221,9 @@ Print Assumptions C03_flag_monotone_old_except_known.
 Example C03_dp_inhabited :
   bigrat_format 10 (SDp 3) (BPlain 10) SepDot (mkrat true 22 7) = Ok ([45; 51; 46; 49; 52; 50], false)
   /\ bigrat_format 10 (SDp 3) (BPlain 10) SepDot (mkrat false 1 8) = Ok ([48; 46; 49; 50; 53], true)
-  /\ bigrat_format 10 (SSf 2) (BPlain 10) SepDot (mkrat false 1234 1) = Ok ([49; 50; 48; 48], false).
+  /\ bigrat_format 10 (SSf 2) (BPlain 10) SepDot (mkrat false 1234 1) = Ok ([49; 50; 48; 48], false)
+  /\ bigrat_format 10 (SSf 2) (BPlain 10) SepDot (mkrat false 1 300) = Ok ([48; 46; 48; 48; 51; 51], false)
+  /\ reduced (mkrat false 1 300) = true.
 Proof. repeat split; vm_compute; reflexivity. Qed.
 
 Example C03_real_layer_inhabited :
